@@ -671,6 +671,11 @@ func (e *env) exec(op Op) {
 		c := e.call("counts", "")
 		m := w.Metrics()
 		e.ret(c, "counts", fmt.Sprintf("%d %d %d %d %d %d %d %d", w.NumPending(), w.NumProcessing(), w.NumConcurrency(), w.NumIdleWorkers(), m.Submitted(), m.Completed(), m.Successful(), m.Failed()))
+	case "mreset":
+		// (only in the family of the same name, which no check of a counter property runs)
+		c := e.call("mreset", "")
+		w.Metrics().Reset()
+		e.ret(c, "mreset", "")
 	case "cancelctx":
 		if e.cancel != nil {
 			c := e.call("cancelctx", "")
